@@ -106,7 +106,7 @@ func AtomFilters(pairs bool) []Step {
 
 // FuncSuffixes are the single trailing-function suffixes.
 func FuncSuffixes() [][]string {
-	return [][]string{{"f"}, {"id"}, {"g"}, {"cnt"}, {"first"}, {"e"}, {"eg"}}
+	return [][]string{{"f"}, {"id"}, {"g"}, {"cnt"}, {"first"}, {"e"}, {"eg"}, {"gre"}, {"fre"}}
 }
 
 // Ladder is a bounded set of paths: all step sequences over Alpha up to Depth, plus every
